@@ -1,7 +1,207 @@
-//! stub
-use serde_json::Value;
-use crate::engine::Ctx;
-pub const RULE: &str = "";
-pub const ASSUMPTIONS: &[&str] = &[];
-pub fn run(_ctx: &Ctx) {}
-pub fn replay(_part: &str, _case: &Value) -> Result<(), String> { Err("not implemented".into()) }
+//! C04 — Frame -> Message -> Frame identity and the protocol table.
+
+use flipdot_core::{Address, Data, Frame, Message, MsgType};
+use proptest::prelude::*;
+use serde_json::{json, Value};
+
+use crate::engine::{catch, h64, par_range, run_generated, Ctx, Stats};
+use crate::props::c01::{frame_strategy, FrameCase};
+use crate::repr::{all_addressed, ref_classify, M};
+
+pub const RULE: &str = "frames are enumerated exhaustively over all 256 message types x all 256 first data bytes x data lengths {0,1,2,3,16,255} x 2 tail patterns x 6 addresses, and over all 65536 addresses x every recognised code (35 one-byte codes, the chunk count, data chunks of length 0,1,2,16,255), each with owned and borrowed data, plus generated frames; each is judged by (1) Frame::from(Message::from(f)) == f, (2) a frozen copy of the protocol table (kind, address/offset/count, state/operation, data; everything else Unknown wrapping the same frame), (3) duality: f is recognised as m exactly when Frame::from(m) == f, evaluated against all 32 candidate specific messages. Non-trivial = the frame is recognised, or differs from a recognised frame in exactly one of (type, length, first byte); distinct by construction of the enumeration / by hash for generated frames";
+pub const ASSUMPTIONS: &[&str] = &["the frozen table in oracle/table.rs is a correct transcription of the protocol codes; the table-free duality clause runs beside it so a transcription slip shows up as a disagreement between the two oracles"];
+
+fn near_or_recognised(ty: u8, data: &[u8], b0_param: u8) -> bool {
+    if !ref_classify(0, ty, data).is_unknown() {
+        return true;
+    }
+    // one of (type, length, first byte) changed
+    for t in 0..=6u8 {
+        if !ref_classify(0, t, data).is_unknown() {
+            return true;
+        }
+    }
+    if !ref_classify(0, ty, &[]).is_unknown() || !ref_classify(0, ty, &[b0_param]).is_unknown() {
+        return true;
+    }
+    if data.len() == 1 && (2..=6).contains(&ty) {
+        return true; // some first byte of that type is in the table
+    }
+    false
+}
+
+pub fn check_frame(c: &FrameCase, st: &mut Stats) -> Result<(), String> {
+    let want = ref_classify(c.addr, c.ty, &c.data);
+    for owned in [true, false] {
+        let how = if owned { "owned" } else { "borrowed" };
+        let r = catch(|| -> Result<(), String> {
+            let mk = || {
+                if owned {
+                    Frame::new(Address(c.addr), MsgType(c.ty), Data::try_new(c.data.clone()).unwrap())
+                } else {
+                    Frame::new(Address(c.addr), MsgType(c.ty), Data::try_new(&c.data[..]).unwrap())
+                }
+            };
+            let f = mk();
+            let m = Message::from(mk());
+            // (1) identity
+            let back = Frame::from(m.clone());
+            if back != f {
+                return Err(format!("Frame -> Message -> Frame changed the frame ({how}): {f:?} -> {m:?} -> {back:?}"));
+            }
+            // (2) table
+            let got = M::from_message(&m);
+            if got != want {
+                return Err(format!(
+                    "sig=table:type{}:len{}; frame {f:?} ({how}) is interpreted as {} but the protocol table says {}",
+                    c.ty,
+                    c.data.len().min(2),
+                    got.short(),
+                    want.short()
+                ));
+            }
+            // (3) duality against Frame::from(candidate)
+            let mut candidates = all_addressed(c.addr);
+            candidates.push(M::Data { off: c.addr, data: c.data.clone() });
+            let mut matching: Vec<M> = vec![];
+            for cand in candidates {
+                if Frame::from(cand.to_message()) == f {
+                    matching.push(cand);
+                }
+            }
+            match matching.len() {
+                0 => {
+                    if !got.is_unknown() {
+                        return Err(format!(
+                            "frame {f:?} ({how}) is recognised as {} although no specific message encodes to it",
+                            got.short()
+                        ));
+                    }
+                }
+                1 => {
+                    if got != matching[0] {
+                        return Err(format!(
+                            "sig=dual:type{}:len{}; message {} encodes to frame {f:?} ({how}) but that frame is interpreted as {}",
+                            c.ty,
+                            c.data.len().min(2),
+                            matching[0].short(),
+                            got.short()
+                        ));
+                    }
+                }
+                _ => {
+                    return Err(format!(
+                        "messages {} and {} share the encoding {f:?}",
+                        matching[0].short(),
+                        matching[1].short()
+                    ))
+                }
+            }
+            Ok(())
+        });
+        st.eval();
+        match r {
+            Ok(Ok(())) => {}
+            Ok(Err(m)) => return Err(m),
+            Err(p) => return Err(format!("panic converting frame <-> message ({how}): {p}")),
+        }
+    }
+    if st.want_sample() && !want.is_unknown() && c.addr > 255 {
+        st.sample(json!({"frame": {"addr": c.addr, "type": c.ty, "data_len": c.data.len(), "first": c.data.first()}, "table": want.short()}));
+    }
+    Ok(())
+}
+
+const LENGTHS: [usize; 6] = [0, 1, 2, 3, 16, 255];
+const ADDRS: [u16; 6] = [0, 3, 0x7F, 0x80, 0xABCD, 0xFFFF];
+
+pub fn run(ctx: &Ctx) {
+    // all types x all first bytes x lengths x tails x addresses -------------------------------
+    par_range(ctx, "types-x-first-bytes", 256 * 256, |i, st| {
+        let ty = (i >> 8) as u8;
+        let b0 = (i & 0xFF) as u8;
+        let mut nontrivial = 0u64;
+        for &len in &LENGTHS {
+            if len == 0 && b0 != 0 {
+                continue; // no first byte: enumerate the empty frame once per type
+            }
+            for tail in [0u8, 1] {
+                if len <= 1 && tail == 1 {
+                    continue; // no tail bytes
+                }
+                let mut data = vec![0u8; len];
+                for (k, d) in data.iter_mut().enumerate() {
+                    *d = if tail == 0 { (k as u8).wrapping_mul(3) } else { 0xFF - k as u8 };
+                }
+                if len > 0 {
+                    data[0] = b0;
+                }
+                for &addr in &ADDRS {
+                    let c = FrameCase { addr, ty, data: data.clone() };
+                    check_frame(&c, st).map_err(|m| (serde_json::to_value(&c).unwrap(), m))?;
+                    if near_or_recognised(ty, &c.data, b0) {
+                        nontrivial += 1;
+                    }
+                }
+            }
+        }
+        st.nontrivial_enumerated(nontrivial);
+        st.class_n("recognised-or-one-field-away", nontrivial);
+        Ok(())
+    });
+    ctx.part_done(
+        "types-x-first-bytes",
+        true,
+        json!("256 types x 256 first bytes x lengths {0,1,2,3,16,255} x 2 tails x 6 addresses x owned/borrowed"),
+    );
+
+    // all addresses x every recognised code ------------------------------------------------
+    par_range(ctx, "addresses-x-codes", 65536, |i, st| {
+        let addr = i as u16;
+        let mut n = 0u64;
+        for m in all_addressed(addr) {
+            let (a, ty, data) = m.ref_frame();
+            let c = FrameCase { addr: a, ty, data };
+            check_frame(&c, st).map_err(|e| (serde_json::to_value(&c).unwrap(), e))?;
+            n += 1;
+        }
+        for len in [0usize, 1, 2, 16, 255] {
+            let c = FrameCase { addr, ty: 0, data: (0..len).map(|k| (k as u8) ^ (addr as u8)).collect() };
+            check_frame(&c, st).map_err(|e| (serde_json::to_value(&c).unwrap(), e))?;
+            n += 1;
+        }
+        st.nontrivial_enumerated(n);
+        st.class_n("recognised-code-at-address", n);
+        Ok(())
+    });
+    ctx.part_done("addresses-x-codes", true, json!("65536 addresses x (36 recognised fixed-size codes + data chunks of 5 lengths)"));
+
+    // generated frames (any type, any data) -------------------------------------------------
+    run_generated(
+        ctx,
+        "generated",
+        ctx.tier.pick(200_000, 5_000_000),
+        || {
+            prop_oneof![
+                2 => frame_strategy(),
+                3 => (frame_strategy(), 0u8..=7).prop_map(|(mut f, t)| { f.ty = t; f }),
+                2 => (frame_strategy(), 0u8..=7, any::<u8>()).prop_map(|(mut f, t, b)| { f.ty = t; f.data = vec![b]; f }),
+            ]
+        },
+        |c, st| {
+            check_frame(c, st)?;
+            if near_or_recognised(c.ty, &c.data, c.data.first().copied().unwrap_or(0)) {
+                st.nontrivial(h64(c));
+                st.class("generated:recognised-or-near");
+            } else {
+                st.class("generated:far");
+            }
+            Ok(())
+        },
+    );
+}
+
+pub fn replay(_part: &str, case: &Value) -> Result<(), String> {
+    let c: FrameCase = serde_json::from_value(case.clone()).map_err(|e| format!("bad case: {e}"))?;
+    check_frame(&c, &mut Stats::new())
+}
